@@ -177,5 +177,142 @@ def unit():
                 meta={'function': '%s.ArmV6.translate_address_v' % A.__module__})
 
 
+def unit_ld():
+    """stage 1, Long-descriptor format (TTBCR.EAE == 1), outside Hyp mode, no Virtualization Extensions"""
+    m = registry.mods()
+    A = m.arm_v6.ArmV6
+    MT = m.memory_attributes.MemType
+    tcode = {MT.NORMAL: PM.NORMAL, MT.DEVICE: PM.DEVICE, MT.STRONGLY_ORDERED: PM.STRONGLY_ORDERED}
+    uid = 'C15/fn:%s.ArmV6.translate_address_v[stage1,long-descriptor]' % A.__module__
+
+    def symbolic(eng):
+        log = eng.register([])
+        hub = c13.AbsHub(eng, log)
+        mach = MC.SymMachine(eng, 'VMSA', 1, mem=hub, cfg_fixed={'have_virt_ext': False})
+        cpu = mach.cpu
+        init = dict(mach.init)
+        cfg = mach.configs
+        mode0 = bits(init['cpsr'], 4, 0)
+        eng.assume(lnot(ST.bad_mode(mode0, cfg['have_security_ext'], cfg['have_virt_ext'])))
+        eng.assume(mode0 != ST.HYP)
+        eng.assume(bit(init['ttbcr'], 31) == 1)                      # EAE
+        eng.assume(bit(init['sctlr'], 0) == 1)                       # MMU on (off: the short-descriptor unit)
+        va = eng.fresh_int('va', 32)
+        ispriv = eng.fresh_bool('ispriv')
+        iswrite = eng.fresh_bool('iswrite')
+        wasaligned = eng.fresh_bool('wasaligned')
+        if not eng.prefix:
+            eng.cover('VMSA/LPAE state satisfiable')
+
+        def hook(model):
+            return {'__reads__': [[sym.evaluate(pa, model), sym.evaluate(v, model)] for (k, pa, sz, v) in log if k == 'hubR']}
+        eng.model_hook = hook
+        contracts = {}
+        contracts.update(registry.l1())
+        contracts.update(registry.regview())
+        contracts.update(registry.l2())
+        eng.contracts = contracts
+        exc = None
+        r = None
+        try:
+            r = eng.call(A.translate_address_v, [cpu, va, ispriv, iswrite, 4, wasaligned])
+        except PyRaise as e:
+            exc = e.exc
+        except sym.OutOfSubset as e:
+            if 'unwinding bound' not in str(e):
+                raise
+            # the walk has at most three levels: more iterations on a feasible path = the loop does not terminate as specified
+            if getattr(e, 'pc', None) is not None:
+                eng.path.pc = list(e.pc)
+            eng.oblige('term', 'the table walk finishes within three levels (lookup loop terminates)', False, detail=str(e))
+            return
+        final = mach.read()
+        rd8 = lambda pa: c13.hub_read(hub.init, pa, 8)
+        sp = VM.translate_v_ld(init, va, ispriv, iswrite, wasaligned, rd8)
+        dc = sp['unpred']
+        if exc is not None and issubclass(exc.cls, NotImplementedError):
+            # Long-descriptor fault reporting consults the mock TLBLookupCameFromCacheMaintenance(); IMPLEMENTATION DEFINED MAIR
+            # encodings leave the memory type unset
+            eng.oblige('post', 'the not-implemented outcome only where a fault is specified (mock hook of LPAE fault reporting) or the MAIR encoding is IMPLEMENTATION DEFINED',
+                       lor(dc, sp['kind'] != VM.NONE, lnot(sp['type_defined'])))
+            return
+        if exc is not None:
+            eng.oblige('safe.host', 'translate_address_v raises %s' % exc.cls.__name__, False, detail=str(exc.attrs.get('args')))
+            return
+        eng.oblige('post', 'translation succeeds only when no fault is specified', lor(dc, sp['kind'] == VM.NONE))
+        eng.oblige_all('frame', 'a successful translation changes no state', [(k, values_eq(v, init[k])) for k, v in final.items()] +
+                       [('memory', sym.SymBool(hub.term == hub.init))])
+        pa = r.attrs['paddress'].attrs['physicaladdress']
+        eng.oblige('post', 'physical address == output address of the block/page descriptor : untranslated low bits (40 bits)',
+                   lor(dc, values_eq(pa, sp['pa'])))
+        eng.oblige('post', 'NS attribute of the output address', lor(dc, values_eq(r.attrs['paddress'].attrs['ns'], sp['ns'])))
+        ma = r.attrs['memattrs']
+        ty = ma.attrs['type']
+        eng.oblige('post', 'memory type from MAIRn.Attr<AttrIndx>', lor(dc, lnot(sp['type_defined']), sp['mtype'] == tcode[ty]))
+        eng.oblige_all('post', 'shareability from the descriptor SH field', [
+            ('shareable', lor(dc, lnot(sp['type_defined']), sym.eq(sym.truth(ma.attrs['shareable']), sym.truth(sp['shareable'])))),
+            ('outershareable', lor(dc, lnot(sp['type_defined']), sym.eq(sym.truth(ma.attrs['outershareable']), sym.truth(sp['outershareable']))))])
+
+    def replay(inputs, ob):
+        cpu = MC.native_cpu('VMSA', 1, overrides={'have_virt_ext': False}, fresh=True)
+        ins = dict(inputs)
+        MC.install_native(cpu, ins, 'VMSA', 1)
+        init = MC.read_native(cpu, 'VMSA', 1)
+        cfgs = registry.mods().configurations.configurations.configs
+        for k in MC.CFG_BOOL + list(MC.CFG_INT):
+            init['cfg.' + k] = cfgs.get(k)
+        table = {pa: v for pa, v in ins.get('__reads__', [])}
+
+        class Mem:
+            def __getitem__(self, key):
+                desc, size = key
+                return table.get(desc.paddress.physicaladdress, 0)
+        cpu.mem = Mem()
+        va, ispriv, iswrite, wasal = ins.get('va', 0), bool(ins.get('ispriv')), bool(ins.get('iswrite')), bool(ins.get('wasaligned'))
+        import io
+        import contextlib
+        import signal
+
+        def on_alarm(signum, frame):
+            raise TimeoutError('translation did not terminate within 5 s')
+        buf = io.StringIO()
+        exc = r = None
+        signal.signal(signal.SIGALRM, on_alarm)
+        signal.alarm(5)
+        try:
+            with contextlib.redirect_stdout(buf):
+                r = cpu.translate_address_v(va, ispriv, iswrite, 4, wasal)
+        except Exception as e:      # noqa
+            exc = e
+        finally:
+            signal.alarm(0)
+        sp = VM.translate_v_ld(init, va, ispriv, iswrite, wasal, lambda pa: table.get(pa, 0))
+        lines = ['va=%s priv=%s write=%s aligned=%s sctlr=%s ttbcr=%s ttbr0=%s ttbr1=%s mair0=%s descriptors read=%s' % (
+            hex(va), ispriv, iswrite, wasal, hex(init['sctlr']), hex(init['ttbcr']), hex(init['ttbr0_64']), hex(init['ttbr1_64']),
+            hex(init['mair0']), {hex(a): hex(v) for a, v in table.items()})]
+        want = VM.KIND_NAMES[sp['kind']]
+        got = 'ok' if exc is None else type(exc).__name__
+        lines.append('real outcome %s ; architectural outcome %s (level %s)%s' % (got, want, sp['level'], ' (UNPREDICTABLE input)' if sp['unpred'] else ''))
+        if sp['unpred']:
+            return False, '\n'.join(lines)
+        if ob.get('kind') == 'term':
+            return isinstance(exc, TimeoutError), '\n'.join(lines)
+        if exc is not None:
+            bad = not (isinstance(exc, NotImplementedError) and (sp['kind'] != VM.NONE or not sp['type_defined']))
+            return bad, '\n'.join(lines)
+        bad = sp['kind'] != VM.NONE
+        if not bad:
+            pa = r.paddress.physicaladdress
+            lines.append('real PA %s NS %s type %s ; spec PA %s NS %s type %s' % (hex(pa), r.paddress.ns, getattr(r.memattrs.type, 'name', r.memattrs.type),
+                                                                                   hex(sp['pa']), sp['ns'], PM.MEMTYPE_NAMES[sp['mtype']]))
+            bad = pa != sp['pa'] or r.paddress.ns != sp['ns']
+            if sp['type_defined']:
+                bad = bad or getattr(r.memattrs.type, 'name', None) != PM.MEMTYPE_NAMES[sp['mtype']] or bool(r.memattrs.shareable) != bool(sp['shareable'])
+        return bad, '\n'.join(lines)
+
+    return Unit(uid, ['C15'], symbolic, replay, {'contracts': {}, 'max_paths': 50000, 'merge_calls': {A.encode_ldfsr, A.convert_attrs_hints}, 'loop_bound': 8},
+                meta={'function': '%s.ArmV6.translate_address_v' % A.__module__})
+
+
 def units(tier):
-    return [unit()]
+    return [unit(), unit_ld()]
